@@ -679,8 +679,12 @@ class Emitter:
         body = apply_rules(body0, counts)
         for k, v in counts.items():
             self.rule_counts[k] = self.rule_counts.get(k, 0) + v
-        for pat, repl, why in f.rewrites:
+        for pat, repl, why, *opt in f.rewrites:
             body, k = re.subn(pat, repl, body, flags=re.S)
+            if k == 0 and opt and opt[0]:
+                # a pure desugaring (e.g. Option::map(closure) -> match): code that is already
+                # in the desugared form needs no rewrite
+                continue
             if k == 0:
                 raise Inconclusive(f"lost anchor: {fnq}: local rewrite /{pat}/ matched nothing")
             self.local_rewrites.append({"fn": fnq, "pattern": pat, "replacement": repl, "why": why, "count": k})
